@@ -1,5 +1,6 @@
 import DSymVerif.Driver.Proto
 import DSymVerif.Model.LinAlg
+import DSymVerif.Model.PGraph
 import DSymVerif.Spec.C18
 
 open DSymVerif DSymVerif.Proto
@@ -285,6 +286,36 @@ def modsolveCase (inp out : Array String) : String × String :=
       (m, s)
     | _, _ => bad
 
+/-! ### periodic graphs -/
+
+def pgCase (inp out : Array String) : String × String :=
+  match run (do
+      let p ← P.int; let steps ← P.nat; let d ← P.nat; let ne ← P.nat
+      let es ← P.rep ne (do
+        let h ← P.nat; let t ← P.nat; let s ← P.rep d P.int
+        pure (h, t, s))
+      pure (p, steps, d, es)) inp with
+  | none => bad
+  | some (p, steps, d, es) =>
+    let model : Outcome (List (Nat × List Q)) :=
+      (PG.Graph.ofEdges (es.map fun e => ⟨e.1, e.2.1, e.2.2⟩)).bind fun g =>
+        PG.placement p steps g
+    let m := encOutcome (fun ps => joinToks (toString ps.length ::
+      ps.map fun pq => joinToks (toString pq.1 :: pq.2.flatMap meRat.enc))) model
+    let s :=
+      if isTok out "PANIC" then fail "no-panic"
+      else match run (do
+          let nv ← P.nat
+          let ps ← P.rep nv (do
+            let v ← P.nat
+            let xs ← P.rep d seRat.dec
+            pure (v, xs))
+          let fin ← P.atEnd
+          if fin then pure ps else failure) out with
+        | some ps => check [("placement-barycentric", barycentricOk es d ps)]
+        | none => fail "no-positions-returned"
+    (m, s)
+
 def splitOp (op : String) : String × String :=
   match op.splitOn "_" with
   | [r, b] => (r, b)
@@ -315,6 +346,7 @@ def handler : Handler := fun op inp out =>
     | some (p, a, b, c) => (fieldModel p a b c, fieldSpec p a b c out)
     | none => bad
   | "modsolve" => modsolveCase inp out
+  | "pgpos" => pgCase inp out
   | "f64_all" | "mf64_all" => ("-", if isTok out "PANIC" then fail "no-panic" else ok)
   | _ =>
     let (r0, bk) := splitOp op
